@@ -14,17 +14,17 @@ Theorem C17_pow2flag_complete : forall k, 0 <= k -> gen_pow2flag (2 ^ k) = true.
 Proof. exact pow2flag_complete. Qed.
 
 (* angular indices wrap periodically for ANY integer offset, on both code paths *)
-Theorem C17_wrap : forall g x, wf g -> gen_wrap g x = x mod nth g.
+Theorem C17_wrap : forall g x, wf g -> gen_wrap g x = x mod ntheta g.
 Proof. exact gen_wrap_spec. Qed.
-Theorem C17_wrap_range : forall g x, wf g -> 0 <= spec_wrap g x < nth g.
+Theorem C17_wrap_range : forall g x, wf g -> 0 <= spec_wrap g x < ntheta g.
 Proof. exact wrap_range. Qed.
-Theorem C17_wrap_periodic : forall g x m, wf g -> spec_wrap g (x + m * nth g) = spec_wrap g x.
+Theorem C17_wrap_periodic : forall g x m, wf g -> spec_wrap g (x + m * ntheta g) = spec_wrap g x.
 Proof. exact wrap_periodic. Qed.
 
 (* code = specification *)
 Theorem C17_index_is_spec : forall g i j, wf g -> gen_index g i j = spec_index g i j.
 Proof. exact gen_index_spec. Qed.
-Theorem C17_fast_eq_reference : forall g i j, wf g -> 0 <= j < nth g -> gen_fast_index g i j = gen_index g i j.
+Theorem C17_fast_eq_reference : forall g i j, wf g -> 0 <= j < ntheta g -> gen_fast_index g i j = gen_index g i j.
 Proof. exact gen_fast_index_spec. Qed.
 Theorem C17_multiindex_is_spec : forall g k, wf g -> 0 <= k < nnodes g ->
   (gen_multi_r g k, gen_multi_t g k) = spec_multi g k.
@@ -41,12 +41,12 @@ Proof. exact index_of_multi. Qed.
 Theorem C17_multi_range : forall g k, wf g -> 0 <= k < nnodes g ->
   in_grid g (fst (spec_multi g k)) (snd (spec_multi g k)).
 Proof. exact multi_range. Qed.
-Theorem C17_index_periodic : forall g i j m, wf g -> spec_index g i (j + m * nth g) = spec_index g i j.
+Theorem C17_index_periodic : forall g i j m, wf g -> spec_index g i (j + m * ntheta g) = spec_index g i j.
 Proof. exact index_periodic. Qed.
 
 (* the circle / radial split partitions the nodes exactly *)
 Theorem C17_split_partition : forall g i j, wf g -> 0 <= i < nr g ->
-  (spec_index g i j < nsc g * nth g <-> i < nsc g).
+  (spec_index g i j < nsc g * ntheta g <-> i < nsc g).
 Proof. exact split_partition. Qed.
 Theorem C17_split_explicit_bounds : forall T ltb radii rho,
   0 <= split_explicit T ltb radii rho <= Z.of_nat (length radii).
@@ -64,7 +64,7 @@ Theorem C17_split_auto_bounds : forall nr_ q, 5 <= nr_ ->
 Proof. exact split_auto_bounds. Qed.
 
 (* neighbour queries agree with the periodic wrap *)
-Theorem C17_neighbours : forall g j, wf g -> 0 <= j < nth g ->
+Theorem C17_neighbours : forall g j, wf g -> 0 <= j < ntheta g ->
   nb_theta_m1 g j = spec_wrap g (j - 1) /\ nb_theta_p1 g j = spec_wrap g (j + 1).
 Proof. exact nb_theta_consistent. Qed.
 
